@@ -274,6 +274,35 @@ func (e *Exec) Conc(v sym.Sc) uint64 {
 			// inconclusive for the rest, but what lies behind this point — e.g. a
 			// crash — is still explored and, if found, replayed)
 			e.res.Truncs = append(e.res.Truncs, fmt.Sprintf("conccap: more than %d feasible values for %s at %s (first %d explored)", capN, clip(v.T), e.where(), capN))
+			// make the sample cover the edges of the type (and, for bytes, of the
+			// ASCII / UTF-8 classes): feasible edge values replace ordinary ones
+			have := map[uint64]bool{}
+			for _, x := range vals {
+				have[x] = true
+			}
+			var mask uint64 = ^uint64(0)
+			if v.W < 64 {
+				mask = (uint64(1) << uint(v.W)) - 1
+			}
+			top := uint64(1) << uint(v.W-1)
+			seeds := []uint64{0, 1, top - 1, top, mask, mask - 1, 0x7f, 0x80, 0xbf, 0xc0, 0xc2, 0xe0, 0xf0, 0xf4, 0xf5, 0xff}
+			k := 0
+			for _, sd := range seeds {
+				sd &= mask
+				if have[sd] || k >= len(vals) {
+					continue
+				}
+				e.S.Push()
+				e.S.Emit(fmt.Sprintf("(assert (= %s %s))", name, sym.Const(v.W, sd).Term()))
+				r, _ := e.S.CheckModel("", nil)
+				e.S.Pop()
+				if r == sym.Sat {
+					// overwrite from the end (keeps the first values, which replay prefixes may rely on being present)
+					vals[len(vals)-1-k] = sd
+					have[sd] = true
+					k++
+				}
+			}
 			break
 		}
 		vals = append(vals, x)
